@@ -439,3 +439,39 @@ def replay_conn_init(obligation=None, model=None, meta=None):
 
 
 replay_conn_init.real_system = True
+
+
+def summary(pid):
+    """System.summary reports; it changes nothing: the island lists it prints are the ones Bus.nosw_island / msw_island index into
+    (an empty frame: any write or rebinding of the island data, in place or not, fails the frame obligation)."""
+    nop = lambda ex, st, a, k, n: None     # noqa
+    ISL = z3.DeclareSort('IslandSet')
+
+    def unchanged(old, new, res):
+        try:
+            return z3.And(*[z3.And(new.arr(p).n == old.arr(p).n, new.arr(p).arr == old.arr(p).arr)
+                            for p in ('self.Bus.island_sets', 'self.Bus.nosw_island', 'self.Bus.msw_island')])
+        except (z3.Z3Exception, AttributeError):
+            return z3.BoolVal(False)        # rebound to a value of another kind: not the list it was
+    return Contract(FS, 'System.summary', pid=pid, params={'self': TObj()},
+                    schema={'self.Bus.island_sets': TSeq(elem=ISL), 'self.Bus.nosw_island': TSeq(elem=I), 'self.Bus.msw_island': TSeq(elem=I),
+                            'self.Bus.n_islanded_buses': TInt(), 'self.Bus.islanded_buses': TOpaque('BusList')},
+                    requires=[('classification-indexes-the-island-list', lambda v: z3.ForAll([JJ], z3.And(
+                        z3.Implies(z3.And(JJ >= 0, JJ < v.arr('self.Bus.nosw_island').n),
+                                   z3.And(v.arr('self.Bus.nosw_island').arr[JJ] >= 0, v.arr('self.Bus.nosw_island').arr[JJ] < v.arr('self.Bus.island_sets').n)),
+                        z3.Implies(z3.And(JJ >= 0, JJ < v.arr('self.Bus.msw_island').n),
+                                   z3.And(v.arr('self.Bus.msw_island').arr[JJ] >= 0, v.arr('self.Bus.msw_island').arr[JJ] < v.arr('self.Bus.island_sets').n)))))],
+                    calls={'logger.info': nop, 'logger.debug': nop, 'logger.warning': nop},
+                    ensures=[('island-data-unchanged', unchanged)],
+                    modifies=[])
+
+
+def replay_summary(obligation=None, model=None, meta=None):
+    """native: islands of loaded cases classified by their slack generators, with the summary printed (the default) and without"""
+    from contracts import bounded_islands_real as BIR
+    n, bad = BIR.run()
+    if bad:
+        return {'confirmed': True, 'inputs': bad, 'observed': str(bad.get('observed'))[:300], 'native_cmd': 'contracts/bounded_islands_real.py'}
+    return {'confirmed': False, 'tried': n}
+
+replay_summary.real_system = True
